@@ -359,13 +359,14 @@ class ImplicitFuncComp(ImplicitComponent):
             Value of input or state variable.
         """
         inps = inputs.values()
-        outs = outputs.values()
 
         for name, meta in self._apply_nonlinear_func._inputs.items():
             if 'is_option' in meta:  # it's an option
                 yield self.options[name]
             elif 'resid' in meta:  # it's a state
-                yield next(outs)
+                # look the state up by name: the order of the states in the function signature
+                # can differ from the order of the outputs (the order of the return values).
+                yield outputs[name]
             else:
                 yield next(inps)
 
@@ -419,16 +420,17 @@ class ImplicitFuncComp(ImplicitComponent):
             Chunks in OpenMDAO jacobian order.
         """
         inps = []
-        ordered_chunks = []
+        states = {}
         chunk_iter = iter(col_chunks)
-        for meta in self._apply_nonlinear_func._inputs.values():
+        for name, meta in self._apply_nonlinear_func._inputs.items():
             if 'is_option' in meta:  # it's an option
                 pass  # skip it (don't include in jacobian)
             elif 'resid' in meta:  # it's a state
-                ordered_chunks.append(next(chunk_iter))
+                states[name] = next(chunk_iter)
             else:
                 inps.append(next(chunk_iter))
-        return ordered_chunks + inps
+        # state columns follow the order of the outputs, not the order of the function signature
+        return [states[name] for name in self._outputs] + inps
 
     def _reorder_cols(self, arr, coloring=None):
         """
